@@ -107,7 +107,7 @@ def one(ctx, rng, xr, frequency, direction, construct_partition):
         okk = close(a.values, b.values, 1e-9, atol=1e-12 * np.abs(b.values).max())[0]
         (rec.ok("tma_deep_is_jonswap", key) if okk else rec.bad("tma_deep_is_jonswap", key, {"fp": fpv, "hs": hsv, "gamma": gamv}, "tma-deep-water-differs-from-jonswap"))
     # --- spreading ---------------------------------------------------------------------------------------
-    nd = int(rng.choice([7, 8, 12, 13, 16, 21, 24, 28, 35, 36, 64, 72, 120, 128, 360]))
+    nd = int(rng.choice([7, 8, 12, 13, 16, 21, 24, 28, 35, 36, 64, 72, 120, 128, 360, 360, 720]))
     dd = 360.0 / nd
     th = float(rng.choice([0.0, dd / 2, rng.uniform(0, dd)])) + dd * np.arange(nd)
     u_ = rng.random()
@@ -121,6 +121,8 @@ def one(ctx, rng, xr, frequency, direction, construct_partition):
     dmode = str(rng.choice(["anywhere", "seam"]))
     dmv = rng.uniform(0, 360, max(nx, 1)) if dmode == "anywhere" else (rng.uniform(-1, 1, max(nx, 1)) % 360)
     sgv = rng.uniform(5, 80, max(nx, 1))
+    if nd >= 360 and rng.random() < 0.6:
+        sgv = rng.uniform(1.2, 5, max(nx, 1))         # very narrow beams on grids fine enough to resolve them
     dm = float(dmv[0]) if nx == 0 else xr.DataArray(dmv, dims=["part"], coords={"part": np.arange(nx)})
     sg = float(sgv[0]) if nx == 0 else xr.DataArray(sgv, dims=["part"], coords={"part": np.arange(nx)})
     skey = "cartwright|nd=%d|dm=%s|params=%s" % (nd, dmode, "scalar" if nx == 0 else "DataArray%d" % nx)
@@ -199,7 +201,10 @@ def one(ctx, rng, xr, frequency, direction, construct_partition):
         mk = "dm=%s|nd=%d|%s" % (dmode, nd, zone)
         # spreads at the rounding floor (all energy in one bin): sqrt(2(1-R)) with 1-R ~ 1e-16 is ~1e-6 deg
         g1 = circ_diff(mdm[k], rdm) <= 1e-7 and abs(msp[k] - rsp) <= 1e-6 * max(rsp, 1) + 1e-5
-        if g1:
+        if rsp <= 1e-5 and np.isnan(msp[k]) and circ_diff(mdm[k], rdm) <= 1e-7:
+            # all energy in one bin: 1 - R is +-1e-16 and its square root is 1e-8 rad or NaN, decided by rounding
+            rec.skip("measured_equals_sampled_ideal", "spread at the rounding floor (single occupied bin)")
+        elif g1:
             rec.ok("measured_equals_sampled_ideal", mk)
         else:
             rec.bad("measured_equals_sampled_ideal", mk, {"dm_measured": mdm[k], "dm_ideal": rdm, "dspr_measured": msp[k], "dspr_ideal": rsp, "dir": th, "dm": dmv[k], "dspr": sgv[k]}, "measured-direction-or-spread-differs-from-sampled-ideal")
